@@ -295,6 +295,31 @@ pub(crate) mod kit {
         kani::cover!(true, "end of harness reachable (vacuity guard)");
     }
 
+    /// C04 / C20 ('when the suspended send finally completes, its event is delivered as well'): a send_with_async that started while `len`
+    /// events were pending stays suspended while the consumer drains the channel and parks again; when the send completes into the (now empty)
+    /// channel its event must wake a parked stream -- a wake decision taken from a length sampled BEFORE the suspension is stale by then
+    pub(crate) fn uni_resumed_async_send_wakes<C, const N: usize, const M: usize>()
+    where C: UniModel<N, M> + ChannelProducer<'static, u32, C::Derived> + ChannelConsumer<'static, C::Derived> + ChannelCommon<u32, C::Derived> {
+        let s = sm::SmState::<M>::first_streams_parked(M as u32);
+        let len: u32 = kani::any(); kani::assume(len < N as u32);
+        let arc = C::build(sm::manager_in_state(&s), kani::any(), kani::any(), len, kani::any());
+        let ch = leak_static(&arc);
+        let x: u32 = kani::any();
+        let waker = sm::counting_waker(7);
+        let mut cx = Context::from_waker(&waker);
+        let mut fut = Box::pin(ch.send_with_async(move |slot: &'static mut u32| SetterFut { slot: Some(slot), x, pending_polls: 1 }));
+        assert!(fut.as_mut().poll(&mut cx).is_pending(),                     "the setter is suspended, so is the send");
+        // the consumer drains everything deliverable and finds the channel empty (it then parks: its waker stays registered)
+        let mut k = 0; while k < len { match ch.consume(0) { Some(d) => std::mem::forget(d), None => assert!(false, "events accepted before the suspended send are deliverable while it is suspended") } k += 1; }
+        assert!(ch.consume(0).is_none(),                                     "drained: nothing deliverable while the send is still suspended");
+        let before = sm::total_wakes(M);
+        assert!(matches!(fut.as_mut().poll(&mut cx), Poll::Ready(keen_retry::RetryResult::Ok { .. })), "when the setter completes, the suspended send completes with Ok");
+        assert!(ch.pending_items_count() == 1,                               "the resumed send's event is pending");
+        assert!(sm::total_wakes(M) >= before + 1,                            "the resumed send wakes a parked stream: every stream is parked and the channel was empty, so without a wake-up the event is stuck");
+        kani::cover!(len as usize >= M || N <= M, "at least MAX_STREAMS events were pending when the send started (where BUFFER_SIZE allows)");
+        kani::cover!(true, "end of harness reachable (vacuity guard)");
+    }
+
     /// C08: reserve, write, then either send-reserved (delivered with precisely the written content) or cancel (never delivered,
     /// capacity restored)
     pub(crate) fn uni_reserved_slot<C, const N: usize, const M: usize>()
